@@ -4,7 +4,7 @@
    Wal/CrcTab.v, Wal/Pb.v; it is tied to the Go code by the differential run of ./check C16. *)
 Require Import Base.Bytes Wal.Crc32c Wal.CrcTab Wal.Pb Wal.WalModel Wal.SnapModel.
 Require Import Wal.FrameProofs Wal.CrcProofs Wal.PbProofs Wal.WalProofs Wal.WalRefuted Wal.SnapProofs.
-Require Import Wal.TornProofs Wal.RepairProofs Wal.ReadAllProofs Wal.RoundtripProofs Wal.SnapFlipProofs.
+Require Import Wal.TornProofs Wal.RepairProofs Wal.ReadAllProofs Wal.RoundtripProofs Wal.SnapFlipProofs Wal.FlipReadProofs.
 Local Open Scope N_scope.
 
 (* ------------------------------------------------------------------ frames *)
@@ -142,6 +142,27 @@ Theorem C16_byte_flip_chain : forall crc pre a b suf (later : list bytes) d2,
   digest_write (chain c1) d2 <> digest_write (chain c1') d2.
 Proof. exact byte_flip_chain. Qed.
 Print Assumptions C16_byte_flip_chain.
+
+(* the same seen through the whole decode loop of a segment: records rs_before, then a record
+   with data d, then rs_after were written; one byte of d is changed in the file.  The loop
+   returns exactly the records before the damaged one (the first |rs_before| of what was
+   written, in order and unmodified) and stops with io.ErrUnexpectedEOF or ErrCRCMismatch:
+   an unmodified prefix and an error, never the damaged record or anything behind it. *)
+Theorem C16_byte_flip_readback : forall rs_before t pre a b suf rs_after last crc0 kz,
+  let d := pre ++ a :: suf in
+  let r := mkrec t 0 (Some d) in
+  let rs := rs_before ++ r :: rs_after in
+  Forall raw_ok rs -> Forall crc_rec_wf rs -> crc0 < lim32 -> t <> crcType -> a <> b ->
+  let '(rs', bs, _) := encode_recs crc0 rs in
+  let '(rsB', bsB, cB) := encode_recs crc0 rs_before in
+  let file := bs ++ zerosN kz in
+  let off := blen bsB + (data_off t (digest_write cB d) (blen d) + blen pre) in
+  exists st crc',
+    decode_whole last crc0 (set_byte off b file) = (rsB', st, blen bsB, crc')
+    /\ (st = FUnexp \/ st = FErr DRecCrc)
+    /\ rsB' = firstn (length rs_before) rs'.
+Proof. exact byte_flip_readback. Qed.
+Print Assumptions C16_byte_flip_readback.
 
 (* ------------------------------------------------------------------ crash images *)
 
